@@ -846,7 +846,7 @@ class Heat1D(BayesianProblem):
         
         else:
             if field_type=="Step":
-                n_steps = domain_geometry.n_steps
+                n_steps = domain_geometry.par_dim # (the number of steps; also available when the step geometry is wrapped by a map)
                 x_exact = CUQIarray(domain_geometry.par2fun(np.array(range(n_steps))), is_par=False, geometry=domain_geometry)
             else:
                 grid_domain = model.domain_geometry.grid
